@@ -16,6 +16,9 @@ type Events struct {
 	MaxHeight                                uint8
 	MaxSize                                  int
 	Steps                                    int
+	HeightDrops                              int // deletes after which the height was lower
+	MergingDeletes                           int // deletes of a key of layer>=1 in a tree of height>=1
+	PersistHeights                           []uint8
 }
 
 // Machine interprets programs over version slots.
@@ -26,6 +29,8 @@ type Machine struct {
 	Ev    Events
 	// AfterMutation is called after every successful mutating op on a slot.
 	AfterMutation func(slot int, t *Tree) error
+	// BeforePersist is called right before MakeRoot.
+	BeforePersist func(slot int, t *Tree)
 	// OnPersist is called after every successful MakeRoot.
 	OnPersist func(slot int, t *Tree, sr *SavedRoot) error
 	// OnReplace is called when a slot's tree is replaced (clone into / reload).
@@ -135,8 +140,15 @@ func (m *Machine) Step(op Op) error {
 		if !ok {
 			return ErrSkipped
 		}
+		hBefore := t.M.Height()
+		if hBefore >= 1 && w.Cfg.RefLayer(w.Pool[ki]) >= 1 {
+			m.Ev.MergingDeletes++
+		}
 		if err := w.Delete(t, ki); err != nil {
 			return err
+		}
+		if t.M.Height() < hBefore {
+			m.Ev.HeightDrops++
 		}
 		m.Ev.Deletes++
 		touched = ki
@@ -148,6 +160,12 @@ func (m *Machine) Step(op Op) error {
 			return ErrSkipped
 		}
 		keys := t.Model.Keys()
+		hBefore := t.M.Height()
+		defer func() {
+			if t.M.Height() < hBefore {
+				m.Ev.HeightDrops++
+			}
+		}()
 		start := mod(op.K, len(keys))
 		for i := range keys {
 			ki := keys[(start+i*7)%len(keys)]
@@ -245,11 +263,15 @@ func (m *Machine) Step(op Op) error {
 		if t.InMemory {
 			return ErrSkipped
 		}
+		if m.BeforePersist != nil {
+			m.BeforePersist(si, t)
+		}
 		sr, err := w.Persist(t)
 		if err != nil {
 			return err
 		}
 		m.Ev.Persists++
+		m.Ev.PersistHeights = append(m.Ev.PersistHeights, sr.Root.Height)
 		m.Roots = append(m.Roots, sr)
 		if m.OnPersist != nil {
 			if err := m.OnPersist(si, t, sr); err != nil {
